@@ -626,7 +626,7 @@ class World:
         E.turn()
         return res == [99]
 
-    def feed_call(self, reqid, body_fn):
+    def feed_call(self, reqid, body_fn, methname=b"m"):
         """deliver a hand-built `call` sequence to the target broker; body_fn(enc) emits the `arguments` sequence.
         Returns the raw bytes fed."""
         enc = Enc()
@@ -634,7 +634,7 @@ class World:
         oc, _ = enc.open(b"call")
         enc.tok(tokens.INT, reqid)
         enc.tok(tokens.INT, self.clid)
-        enc.string(b"m")
+        enc.string(methname)
         body_fn(enc)
         enc.close(oc)
         data = enc.bytes()
